@@ -364,3 +364,11 @@ SUBS = [
     Sub("program", check_program, program_case(), nontrivial=nt_program, quick=1200, thorough=8000),
     Sub("setter", check_setter, setter_case(), quick=600, thorough=3000),
 ]
+
+
+# objects with a history (reads that may fill caches, in-place writes): observables equal those of a fresh object
+from pbt import aged as _aged  # noqa: E402
+
+SUBS.append(_aged.sub("C08", quick=120))
+ASSUMPTIONS = list(ASSUMPTIONS) + ["aged sub-property: library results are a function of the public primary state "
+                                   "(corners, n, names, units, bc, subregions, array, validity, labels, mapping, unit)"]
